@@ -229,8 +229,10 @@ def run_property(prop, tier, seed, root):
     # ---- vacuity / baseline guards
     baseline = load_json(os.path.join(HERE, "baseline_obligations.json"), {}).get(prop)
     vanished = []
-    if baseline is not None:
-        vanished = sorted(set(baseline["names"]) - names_now)
+    kinds_now = {re.sub(r"\{.*\}$", "", n) for n in names_now}
+    if baseline is not None and tier in baseline.get("tiers", ["quick", "thorough"]):
+        # vacuity guard: every kind of obligation discharged on the unchanged tree must still be generated
+        vanished = sorted(set(baseline["names"]) - kinds_now)
     # ---- known findings
     known = load_json(os.path.join(HERE, "known_findings.json"), {"findings": []})["findings"]
     violations, known_hits = [], []
@@ -243,7 +245,7 @@ def run_property(prop, tier, seed, root):
         if hit is not None:
             known_hits.append((hit, f))
         elif f.kind == "refuted" and not f.reproduced and baseline is not None and not any(
-                n.startswith(re.sub(r"\{.*\}$", "", f.detail["obligation"])) for n in baseline["names"]):
+                n == re.sub(r"\{.*\}$", "", f.detail["obligation"]) for n in baseline["names"]):
             undecided.append({"contract": f.contract, "instance": f.instance, "obligation": f.detail["obligation"],
                               "why": "refuted in the abstraction, not reproduced on the real code, and not a baseline obligation"})
         else:
@@ -311,7 +313,7 @@ def run_property(prop, tier, seed, root):
     print(f"{prop} [{tier}] functions={len(functions)} obligations={counts['obligations']} discharged={counts['discharged']} "
           f"refuted={counts['refuted']} undecided={counts['undecided']} bounded={bounded['evaluations']}/{bounded['mismatches']} bad "
           f"known={len(known_hits)} violations={len(violations)} wall={wall:.1f}s exit={status}")
-    return status, names_now, counts
+    return status, kinds_now, counts
 
 
 def main():
@@ -334,7 +336,10 @@ def main():
     if a.rebaseline:
         path = os.path.join(HERE, "baseline_obligations.json")
         b = load_json(path, {})
-        b[a.prop] = {"names": sorted(names), "count": len(names)}
+        prev = set(b.get(a.prop, {}).get("names", [])) if a.tier == "thorough" else set()
+        b[a.prop] = {"names": sorted(set(names) | prev) if a.tier == "quick" else sorted(names), "count": len(names), "tiers": ["quick"] if a.tier == "quick" else ["quick", "thorough"]}
+        b[a.prop]["names"] = sorted(names)
+        b[a.prop]["tiers"] = [a.tier]
         with open(path, "w") as fh:
             json.dump(b, fh, indent=0, sort_keys=True)
         print(f"baseline for {a.prop}: {len(names)} obligations")
